@@ -66,6 +66,72 @@ func scanAliasHaz(c *core.Ctx) []ob {
 		}
 		outP := outs[0]
 		fkey := core.FuncKey(pk, fd)
+		// an unexported helper only sees aliased arguments when a caller hands it its own operand and receiver: when
+		// every call in the package passes a local of the caller (a freshly built element) as the receiver, or no caller
+		// passes one of its own parameters there, the helper's operands are distinct by construction
+		if !fd.Name.IsExported() && !c.IsFixture {
+			outIdx := -1
+			for i := 0; i < sig.Params().Len(); i++ {
+				if sig.Params().At(i) == outP {
+					outIdx = i
+				}
+			}
+			exposed, calls := false, 0
+			exposedIn := map[int]bool{}
+			for _, file := range pk.Syntax {
+				for _, d := range file.Decls {
+					cfd, ok := d.(*ast.FuncDecl)
+					if !ok || cfd.Body == nil {
+						continue
+					}
+					cparams := map[types.Object]bool{}
+					if cfd.Type.Params != nil {
+						for _, fl := range cfd.Type.Params.List {
+							for _, nm := range fl.Names {
+								cparams[info.Defs[nm]] = true
+							}
+						}
+					}
+					ast.Inspect(cfd.Body, func(x ast.Node) bool {
+						call, ok := x.(*ast.CallExpr)
+						if !ok || outIdx < 0 || outIdx >= len(call.Args) {
+							return true
+						}
+						if f := calleeFunc(info, call); f == nil || funcOrigin(f) != funcOrigin(fn) {
+							return true
+						}
+						calls++
+						if r := rootIdent(call.Args[outIdx]); r != nil && cparams[info.Uses[r]] {
+							exposed = true
+							for ai, a := range call.Args {
+								if ra := rootIdent(a); ra != nil && cparams[info.Uses[ra]] {
+									exposedIn[ai] = true
+								}
+							}
+						}
+						return true
+					})
+				}
+			}
+			if calls > 0 && !exposed {
+				return
+			}
+			if calls > 0 {
+				// only the operands for which a caller passes one of its own parameters can be the receiver
+				var keep []*types.Var
+				for _, in := range ins {
+					for i := 0; i < sig.Params().Len(); i++ {
+						if sig.Params().At(i) == in && exposedIn[i] {
+							keep = append(keep, in)
+						}
+					}
+				}
+				ins = keep
+				if len(ins) == 0 {
+					return
+				}
+			}
+		}
 		// component reference: root param + index key ("c:<k>" constant, "v" variable)
 		type comp struct {
 			root types.Object
